@@ -1,5 +1,6 @@
 """C12 — Headers and payload fields use the ASAM CMP / TECMP wire layout."""
 from cmpverif import accessors
+from cmpverif.build import Broken
 from cmpverif.report import Result
 
 LEVEL = "proof"
@@ -14,6 +15,9 @@ def run(ctx):
     res.rule("C12-R1f", "flag bits: every flag enumerator reads/writes exactly the wire bit(s) the oracle lists")
     res.rule("C12-R2", "sizes: sizeof each header equals the standard's size, no padding, alignment 1; variable-length data "
                         "starts at sizeof(Header)")
+    res.rule("C12-R3o", "raw header output: getRawCmpHeader / getRawMessageHeader hand out a complete, zero-based header — the untyped output pointer "
+                        "only receives whole-object copies of a default-constructed local header (shared with C20-R2), so reserved bytes are zero "
+                        "whatever the destination held")
     res.rule("C12-R3", "reserved bytes are zero-initialised in default-constructed header objects")
     res.rule("C12-R3w", "no in-range setter writes a reserved (or any foreign) bit (C11-R1 frame result)")
     res.rule("C12-R4", "swapEndian overloads are byte reversal for all values (integer overloads by G4, float overload by "
@@ -58,4 +62,7 @@ def run(ctx):
     res.floor("C12-R2", 30)
     res.floor("C12-R3", 20)
     res.floor("C12-R4", 5)
+    from rules.c20 import rule_raw_outputs
+    if rule_raw_outputs(fb, res, "C12-R3o") < 2:
+        raise Broken("raw header output functions (void* dest) not found")
     return res
